@@ -1,6 +1,7 @@
 import Norad.Model.FontLoad
 import Norad.Lemmas.FontLoad
 import Norad.Generated.SaveOrder
+import Norad.Generated.DataRequest
 /-!
 # C17 — a partial load equals the full load restricted to what was requested
 
@@ -415,6 +416,118 @@ open Source Generated.SaveOrder in
     failure is due to the corrupted file). -/
 theorem source_switches_match_model :
     loadSwitches = modelSwitches ∧ (switchNames.all fun s => loads s "") = true := by
+  decide
+
+/-! ### source-level tie: `DataRequest` / `LayerFilter` method by method, as the code says it NOW
+
+`Generated.DataRequest` is regenerated from `src/data_request.rs` on every run by a translator (tools/
+extract_data_request.py): the two structs with their Rust field names and every method of the two types, assignment by
+assignment.  `toModel` reads the regenerated record as the model's `Request`; the theorems say that every builder call,
+`should_load` and `includes_default_layer` of the regenerated code ARE `Request.step`, `shouldLoad`, `includesDefault` -
+so every theorem above that quantifies over `r : Request` or over `Req.apply cs` is a theorem about the regenerated
+code.  How `std::path::Path` compares (`path == Path::new("glyphs")`) is the parameter `pathEq`, instantiated with
+equality of the component form (validated by the stream `C16path`). -/
+
+namespace Source
+open Generated.DataRequest
+
+/-- the regenerated `DataRequest` (with its `LayerFilter`) read as the model's `Request` -/
+def toModel (g : DataRequest) : Request :=
+  { lib := g.lib, groups := g.groups, kerning := g.kerning, features := g.features, data := g.data,
+    images := g.images, all := g.layers.all, loadDefault := g.layers.load_default, custom := g.layers.custom }
+
+def genPart (g : DataRequest) : PartSwitch → Bool → DataRequest
+  | .lib, b => DataRequest_lib g b
+  | .groups, b => DataRequest_groups g b
+  | .kerning, b => DataRequest_kerning g b
+  | .features, b => DataRequest_features g b
+  | .data, b => DataRequest_data g b
+  | .images, b => DataRequest_images g b
+
+/-- one builder call, executed by the regenerated code -/
+def genStep (g : DataRequest) : Call → DataRequest
+  | .all => DataRequest_all
+  | .none => DataRequest_none
+  | .layers b => DataRequest_layers g b
+  | .defaultLayer b => DataRequest_default_layer g b
+  | .filter _ p => DataRequest_filter_layers g p
+  | .part s b => genPart g s b
+
+/-- a chain of builder calls on the regenerated code (as `Req.apply`: it starts from `none()`, a leading `all()` /
+    `none()` replaces that) -/
+def genApply (cs : List Call) : DataRequest := cs.foldl genStep DataRequest_none
+
+/-- `Path == Path`: equality of the component form -/
+def pathEq (a b : Str) : Bool := Path.parse a == Path.parse b
+
+/-- the public constructors and builder methods the model's `Call` type knows -/
+def knownBuilders : List String :=
+  ["all", "data", "default", "default_layer", "features", "filter_layers", "groups", "images", "kerning", "layers",
+   "lib", "none"]
+
+theorem genStep_eq_model (g : DataRequest) (c : Call) : toModel (genStep g c) = (toModel g).step c := by
+  cases c with
+  | part s b => cases s <;> rfl
+  | _ => rfl
+
+theorem genFold_eq_model : ∀ (cs : List Call) (g : DataRequest),
+    toModel (cs.foldl genStep g) = cs.foldl Request.step (toModel g) := by
+  intro cs
+  induction cs with
+  | nil => intro g; rfl
+  | cons c r ih => intro g; simp only [List.foldl_cons]; rw [ih, genStep_eq_model]
+
+end Source
+
+open Source Generated.DataRequest in
+/-- **The builder methods of the source are the model's `Request.step`**: the three constructors give the model's
+    `everything` / `nothing`; every builder call executed by the regenerated method equals the model's step on the
+    same request (all requests, all calls, any predicate); hence every chain of calls builds the request `Req.apply`
+    computes; and the public methods of `DataRequest` that return a request are exactly the calls the model knows
+    (a new builder would be a call no theorem speaks about). -/
+theorem source_request_builders_eq_model :
+    toModel DataRequest_all = Request.everything ∧ toModel DataRequest_default = Request.everything ∧
+    toModel DataRequest_none = Request.nothing ∧
+    (∀ (g : DataRequest) (c : Call), toModel (genStep g c) = (toModel g).step c) ∧
+    (∀ cs : List Call, toModel (genApply cs) = Req.apply cs) ∧
+    publicBuilders = knownBuilders :=
+  ⟨rfl, rfl, rfl, genStep_eq_model, fun cs => genFold_eq_model cs DataRequest_none, by decide⟩
+
+open Source Generated.DataRequest in
+/-- **`LayerFilter::should_load` and `includes_default_layer` of the source are the model's**: clause by clause
+    (`all`, the default-layer clause `load_default && path == "glyphs"`, the custom predicate with `false` when there is
+    none), for every request, layer name and directory. -/
+theorem source_layer_filter_eq_model (g : DataRequest) (name dir : Str) :
+    LayerFilter_should_load pathEq g.layers name dir = shouldLoad (toModel g) name dir ∧
+    LayerFilter_includes_default_layer g.layers = includesDefault (toModel g) := by
+  refine ⟨?_, rfl⟩
+  unfold LayerFilter_should_load shouldLoad toModel pathEq glyphsDir
+  cases g.layers.custom <;> rfl
+
+open Source Generated.DataRequest in
+/-- **`partial_eq_restricted_full` for the requests the regenerated builders build**: whatever chain of builder calls
+    produced the request, the partial load is the full load restricted to it, and the layers it selects are those the
+    regenerated `should_load` selects. -/
+theorem source_partial_eq_restricted_full (P : Parser β) (fs : FS β) (t : APath) (cs : List Call) (f : AFont β)
+    (hfull : loadImpl P fs t Request.everything = .ok f)
+    (hone : ∀ x ∈ f.layers.tail, isDefaultLayer x = false)
+    (hplain : PlainLayerDirs P fs t) :
+    loadImpl P fs t (toModel (genApply cs)) = .ok (restrict (toModel (genApply cs)) f) ∧
+    ∀ n d, shouldLoad (toModel (genApply cs)) n d = LayerFilter_should_load pathEq (genApply cs).layers n d :=
+  ⟨partial_eq_restricted_full P fs t _ f hfull hone hplain,
+   fun n d => ((source_layer_filter_eq_model (genApply cs) n d).1).symm⟩
+
+open Source Generated.DataRequest in
+/-- non-vacuity: the regenerated code computes - `none().lib(true).default_layer(true)` asks for the lib and selects
+    `glyphs` (also spelled `glyphs/`) and nothing else; a filter after `all()` switches "all layers" off -/
+example :
+    (toModel (genApply [.none, .part .lib true, .defaultLayer true])).lib = true ∧
+    LayerFilter_should_load pathEq (genApply [.none, .defaultLayer true]).layers "x".toList "glyphs/".toList = true ∧
+    LayerFilter_should_load pathEq (genApply [.none, .defaultLayer true]).layers "x".toList "glyphs.bg".toList = false ∧
+    LayerFilter_should_load pathEq (genApply [.all, .filter 'n' fun n _ => n == "bg".toList]).layers "fg".toList
+      "glyphs.fg".toList = false ∧
+    LayerFilter_should_load pathEq (genApply [.all, .filter 'n' fun n _ => n == "bg".toList]).layers "bg".toList
+      "glyphs.bg".toList = true := by
   decide
 
 end C17
